@@ -15,6 +15,10 @@ FN = FUNCS + [
     fn("add", Y, Z), fn("multiply", Z, Z), fn("join", atom("hello"), atom(","), atom("world"), atom("!")),
     fn("join", Y), fn("join", lst([atom("a"), Y])), fn("add", fn("add", integer(1), integer(1)), integer(1)),
     fn("nosuch", atom("a")),
+    # beyond the small values: integers above 2^53, long argument lists, floats with many digits, long joins
+    fn("add", integer(2**53), integer(1)), fn("subtract", integer(-2**62), integer(2**62 - 1)), fn("multiply", integer(3037000499), integer(3037000499)),
+    fn("add", *[integer(k) for k in range(1, 13)]), fn("add", flt(0.1), flt(0.2)), fn("divide", integer(2**53 + 1), integer(1)),
+    fn("join", *[atom("w%d" % k) for k in range(12)]), fn("join", atom("Zo\u00eb"), atom(","), atom("\u65e5\u672c")),
 ]
 PRI = [[], [(X, integer(1))], [(Y, integer(2)), (Z, flt(2.5))], [(X, Y), (Y, integer(3))], [(Z, atom("b")), (Y, atom("a"))],
        [(X, integer(3)), (Y, integer(1)), (Z, integer(2))], [(X, atom("a b")), (Y, atom("a"))]]
@@ -25,7 +29,7 @@ def others():
     if OTHERS is None:
         OTHERS = [atom("a"), atom("a b"), atom("hello, world!"), integer(3), integer(5), integer(12), flt(3.0), flt(0.25),
                   flt(5.0), X, Y, Z, W, var(8, "$U"), ANON, cplx("f", X), cplx("f", integer(3)), lst([integer(3)]), EMPTY,
-                  lst([X], Y)]
+                  lst([X], Y), integer(2**53 + 1), integer(2**53), flt(0.3), flt(0.1 + 0.2), integer(78)]
     return OTHERS
 
 def mk(prior, a, b):
@@ -47,7 +51,9 @@ def cases(tier, rng):
     # the value-side cases are generated in relations() from the implementation's own value; to have
     # their results available they are generated here for every constant that can be a value
     vals = [integer(i) for i in range(0, 14)] + [flt(x) for x in (0.25, 3.0, 2.5, 1.5, 3.5, 4.5, 5.0, 6.25, 0.5)] + \
-           [atom(s) for s in ("a b", "a", "a,", "x y", "hello, world!", "1,", "3,", "2", "a a", "a 2", "a b,", "1", "3")]
+           [atom(s) for s in ("a b", "a", "a,", "x y", "hello, world!", "1,", "3,", "2", "a a", "a 2", "a b,", "1", "3")] + \
+           [integer(2**53 + 1), integer(-2**63 + 1), integer(3037000499 * 3037000499), integer(78), flt(0.1 + 0.2), flt(0.3),
+            atom(" ".join("w%d" % k for k in range(12))), atom("Zo\u00eb, \u65e5\u672c")]
     for p in PRI:
         for v in vals:
             for t in others():
